@@ -378,6 +378,13 @@ func (fc *FuncCtx) callWith(c *ast.CallExpr, st *State, recv *Value, args []*Val
 		ct = e.contractFor(pp, key)
 	}
 	if ct == nil {
+		// a library function (outside this repository) that takes only values - numbers, booleans, strings,
+		// errors - cannot touch the state the contracts speak about: it is treated as a pure function with an
+		// unknown result, and recorded as an assumption.  Anything else without a contract cannot be translated.
+		if fn.Pkg() != nil && !strings.HasPrefix(pp, "github.com/pingcap/advanced-statefulset") && recv == nil && valueOnly(args) {
+			e.assumed["library function "+full+" has no contract: assumed pure (it only takes numbers, booleans, strings or errors)"] = true
+			return freshResults()
+		}
 		fc.unsupp(c, "call of %s without contract", full)
 	}
 	if ct.Inline && fn.Pkg() != nil {
@@ -1539,4 +1546,19 @@ func (fc *FuncCtx) evalEnsuresForCaller(env *SpecEnv, en *Clause) (t string, ok 
 		}
 	}()
 	return env.evalBool(en.Expr), true
+}
+
+// valueOnly reports whether every argument is a number, boolean, string or error.
+func valueOnly(args []*Value) bool {
+	for _, a := range args {
+		if a == nil || a == nilValue {
+			continue
+		}
+		switch a.Sh.Kind {
+		case KInt, KBool, KStr, KErr:
+		default:
+			return false
+		}
+	}
+	return true
 }
